@@ -30,6 +30,16 @@ func paramEntries() []*entry {
 					RingType: ring.ConjugateInvariant, DefaultScale: rlwe.NewScaleModT(7, 97), NTTFlag: false})
 				return &p
 			}),
+			// values DERIVED from other parameter sets without going through the constructor or a decoder
+			V("derived:standard-of-CI", func(w *world, g *gen) any {
+				p := must(ciRLWE().StandardParameters())
+				return &p
+			}),
+			V("derived:GetRLWEParameters-of-bgv", func(w *world, g *gen) any { p := *w.getBgvA().GetRLWEParameters(); return &p }),
+			V("derived:embedded-in-ckks-standard-of-CI", func(w *world, g *gen) any {
+				p := must(ciCKKS().StandardParameters()).Parameters
+				return &p
+			}),
 		}},
 		{name: "rlwe.ParametersLiteral", zero: Z[rlwe.ParametersLiteral](), heavy: true, vals: []value{
 			V("primes", func(w *world, g *gen) any {
@@ -76,6 +86,7 @@ func paramEntries() []*entry {
 				p := must(ckks.NewParametersFromLiteral(ckks.ParametersLiteral{LogN: 5, Q: uni.Primes(5, 45, 2), P: uni.PrimesSkip(5, 45, 1, 2), LogDefaultScale: 45}))
 				return &p
 			}),
+			V("derived:standard-of-CI", func(w *world, g *gen) any { p := must(ciCKKS().StandardParameters()); return &p }),
 		}},
 		{name: "ckks.ParametersLiteral", zero: Z[ckks.ParametersLiteral](), heavy: true, vals: []value{
 			V("primes", func(w *world, g *gen) any {
@@ -139,6 +150,17 @@ func paramEntries() []*entry {
 			}),
 		}},
 	}
+}
+
+// conjugate-invariant sets from which standard ones are derived (StandardParameters copies the struct and changes
+// ring degree and type)
+func ciRLWE() rlwe.Parameters {
+	q := uni.Primes(5, 40, 3) // = 1 mod 4N for N=16, = 1 mod 2N' for the derived N'=32
+	return uni.RLWE(rlwe.ParametersLiteral{LogN: 4, Q: q[:2], P: q[2:], RingType: ring.ConjugateInvariant, DefaultScale: rlwe.NewScale(1 << 20), NTTFlag: true})
+}
+
+func ciCKKS() ckks.Parameters {
+	return must(ckks.NewParametersFromLiteral(ckks.ParametersLiteral{LogN: 4, Q: uni.Primes(5, 40, 2), RingType: ring.ConjugateInvariant, LogDefaultScale: 30}))
 }
 
 // btpParams follows the recipe of the repository's bootstrapping tests on a small ring.
